@@ -779,11 +779,42 @@ func (ev *Evaluator) call(x *ECall) SVal {
 		case "loc":
 			t := ev.eval(x.Args[0])
 			return SVal{v: Val{t: "(t_loc " + t.v.t + ")"}, sort: "Ref"}
-		case "sameheap":
-			// sameheap("T"): no cell of type T has a different content than in the pre-state (two-state contexts)
+		case "sameheapSinceHead":
+			// sameheapSinceHead(n, "T"): no cell of type T differs from the start of the current iteration of loop n
+			if ev.heads == nil {
+				unsupported("spec: sameheapSinceHead() not available here")
+			}
+			n, ok1 := x.Args[0].(*EInt)
+			tn, ok2 := x.Args[1].(*EStr)
+			if !ok1 || !ok2 {
+				unsupported("spec: sameheapSinceHead(n, \"T\")")
+			}
+			var ord int
+			fmt.Sscan(n.V, &ord)
+			hst, _ := ev.heads(ord)
+			t, _ := ev.resolveType(tn.V)
+			if t == nil {
+				unsupported("spec: sameheapSinceHead: unknown type %s", tn.V)
+			}
+			key, srt := fx.tm.heapKey(t)
+			return SVal{v: Val{t: eq(fx.heap(ev.st, key, srt), fx.heap(hst, key, srt))}, typ: boolT}
+		case "sameheap", "sameheapSinceLoop":
+			// sameheap("T"): no cell of type T has a different content than in the pre-state (two-state contexts);
+			// sameheapSinceLoop("T"): ... than at the entry of the enclosing loop (loop invariants)
 			tn, ok := x.Args[0].(*EStr)
 			if !ok || ev.old == nil {
 				unsupported("spec: sameheap(\"T\") needs a type name and a pre-state")
+			}
+			if x.Fun == "sameheapSinceLoop" {
+				if ev.pre == nil {
+					unsupported("spec: sameheapSinceLoop() is only available in loop invariants")
+				}
+				t, _ := ev.resolveType(tn.V)
+				if t == nil {
+					unsupported("spec: sameheapSinceLoop: unknown type %s", tn.V)
+				}
+				key, srt := fx.tm.heapKey(t)
+				return SVal{v: Val{t: eq(fx.heap(ev.st, key, srt), fx.heap(ev.pre, key, srt))}, typ: boolT}
 			}
 			t, _ := ev.resolveType(tn.V)
 			if t == nil {
